@@ -60,6 +60,7 @@ class SimTransport(asyncio.Transport):
         self.fail_writes: BaseException | None = None  # scripted failure of write()
         self.on_write = None  # observer(bytes)
         self.reading = False
+        self._feeds = 0
         loop.call_soon(self._connection_made)
         loop.call_soon(self._start_reading)
         if waiter is not None:
@@ -160,12 +161,20 @@ class SimTransport(asyncio.Transport):
         """The selector reports the socket readable and recv() returns `data`."""
         if not self.can_receive():
             return False
+        # a transport may hand the protocol a view of a receive buffer that it re-uses for the next read
+        # (buffered / proactor-style transports): every other chunk is delivered that way and the buffer is
+        # overwritten as soon as data_received has returned - nothing the library keeps may alias it
+        self._feeds += 1
+        buf = bytearray(data) if self._feeds % 2 == 0 else None
         try:
-            self._protocol.data_received(data)
+            self._protocol.data_received(data if buf is None else (buf if self._feeds % 4 == 0 else memoryview(buf)))
         except (SystemExit, KeyboardInterrupt):
             raise
         except BaseException as exc:  # noqa: BLE001
             self._fatal_error(exc, "Fatal error: protocol.data_received() call failed.")
+        finally:
+            if buf is not None:
+                buf[:] = b"\xa5" * len(buf)
         return True
 
     def feed_eof(self) -> bool:
